@@ -493,7 +493,7 @@ func C15(c *mc.Ctx) {
 	}
 	for _, cfg := range cfgs {
 		cfg := cfg
-		b := &mc.BFS{C: c, Name: "govmc[" + cfg.name + "]", MaxDepth: depth,
+		b := &mc.BFS{C: c, Name: "govmc[" + cfg.name + "]", MaxDepth: depth, EveryTransition: true,
 			Init:    func() mc.Instance { return newC15Inst(cfg) },
 			Enabled: func(x mc.Instance, d int) []string { return ops },
 			Apply: func(x mc.Instance, op string, path []string) (bool, bool) {
